@@ -111,7 +111,7 @@ func genC30(seed int64, tier string, emit func(run.Case)) {
 		id++
 		emit(run.MkCase(fmt.Sprintf("c%06d", id), kind, c30In{Spec: spec, Opt: o, Text: spec.Text()}))
 	}
-	reps := tierN(tier, 1, 12)
+	reps := tierN(tier, 1, 8)
 	for rep := 0; rep < reps; rep++ {
 		for fi, f := range fields {
 			for ki, k := range kinds {
@@ -128,7 +128,7 @@ func genC30(seed int64, tier string, emit func(run.Case)) {
 			}
 		}
 	}
-	n := tierN(tier, 250, 12000)
+	n := tierN(tier, 250, 8000)
 	for i := 0; i < n; i++ {
 		q := r.Sub(7000000 + i)
 		spec := gen.InjSpec{Struct: q.Int63(), Pay: map[string]string{}}
